@@ -11,6 +11,12 @@ import JugModel.Props.KALock
 #print axioms Jug.C19.loop_matches
 #print axioms Jug.C19.exits_match
 #print axioms Jug.C19.helper_started_plainly
+#print axioms Jug.C19.round_mtime_le_now
+#print axioms Jug.C19.run_mtime_le_now
+#print axioms Jug.C19.lock_gone_stops
+#print axioms Jug.C19.dead_worker_run
+#print axioms Jug.C19.stopped_is_final
+#print axioms Jug.C19.runEnv_live
 #print axioms Jug.KALockProps.held_lock_has_helper
 #print axioms Jug.KALockProps.get_spec
 #print axioms Jug.KALockProps.let_go_stops_helper
